@@ -103,6 +103,7 @@ type Enc struct {
 	onceVals    map[*Term]*Term
 	yieldParam  *Term  // the callback parameter of a unit under the `yields` protocol (nil: none)
 	yieldName   string
+	yieldEnv    func(st *State) *evalEnv // the unit's own parameters over a given state (for its `iterates` summary)
 	yieldCells  map[*Term]bool
 	yieldLits   map[*ssa.MakeClosure]bool // literals that capture the callback: true once verified as an iteration body
 	recoverMode int // 0: recover() is unknown, 1: no panic is in flight (nil), 2: a panic is being recovered (non-nil)
